@@ -72,6 +72,10 @@ def c02(res: Result):
     tasks = tasks_from_emitted(full, rng, N(q, 600, 5000), "m")
     for i, tt in enumerate(gen.network_pool(rng, N(q, 500, 6000), [3, 3, 4, 4, 5] if q else [3, 4, 4, 5, 5, 6])):
         tasks.append({"tid": f"r{i}", "tt": tt, "ops": [rng.choice([FULL_BFS, FULL_DFS])], "meta": "random-net full expansion"})
+        if i % 4 == 0:
+            # a small max_motifs_per_node: the expansion either raises (the node stays a stub) or is exact
+            tasks.append({"tid": f"l{i}", "tt": tt, "cfg": {"maxm": rng.choice([1, 2, 3, 4, 5]), "candlim": 100000, "rsthr": 1000, "simbudget": 1000, "nfvsthr": 2000},
+                          "ops": [rng.choice([FULL_BFS, FULL_DFS]), rng.choice([FULL_BFS, FULL_DFS])], "meta": "full expansion under a motif limit"})
     tasks += gadget_tasks("g", [[FULL_BFS], [FULL_DFS]])
     tasks += feature_tasks("f", [[FULL_BFS], [FULL_DFS]], max_n=6)
     invs = ["Inv_WF", "Inv_PartialFaithful", "Inv_FullExact", "Inv_MinExact"]
@@ -99,6 +103,9 @@ def c04(res: Result):
     tasks = tasks_from_emitted(recs, rng, N(q, 1500, 20000), "m", tail=[FULL_BFS])
     tasks += random_tasks(rng, N(q, 500, 6000), [3, 3, 4, 4, 5] if q else [3, 4, 4, 5, 5, 6],
                           gen.PLAIN_KINDS + ["blockplain"], (1, 4), "r", tail=[FULL_BFS])
+    # configurations: small max_motifs_per_node (an expansion that would exceed it must raise and leave the node a stub)
+    tasks += random_tasks(rng, N(q, 150, 2000), [3, 3, 4, 4, 5], gen.PLAIN_KINDS + ["blockplain"], (1, 4), "c", tail=[FULL_BFS],
+                          cfgs=[{"maxm": m, "candlim": 100000, "rsthr": 1000, "simbudget": 1000, "nfvsthr": 2000} for m in (1, 2, 3, 4, 5)])
     tasks += feature_tasks("f", None, rng=rng, hist=(gen.PLAIN_KINDS + ["cand", "blockplain"], (2, 5), [FULL_BFS], 3 if q else 12))
     invs = ["Inv_WF", "Inv_PartialFaithful", "Inv_PlainOnly", "Inv_FullExact"]
     res.cov["rule"] = ("Histories of plain expansion calls (single node, BFS, DFS, minimal-space, attractor-seed, target-directed, block "
